@@ -128,7 +128,8 @@ pub fn long(n: usize, variant: u8) -> String {
     }
     s
 }
-const LONG_LENGTHS: [usize; 3] = [70, 200, 300];
+const LONG_LENGTHS: [usize; 4] = [70, 200, 300, 1100];
+const LONGER_LENGTHS: [usize; 2] = [4200, 70_000];
 
 const ALPHA: [char; 8] = ['a', '|', '"', '\\', '\'', ' ', ',', '\n'];
 pub fn d_char(_t: bool) -> Vec<char> {
@@ -161,6 +162,13 @@ pub fn d_string(thorough: bool) -> Vec<String> {
     for n in LONG_LENGTHS {
         for v in 0..4 {
             out.push(long(n, v));
+        }
+    }
+    if thorough {
+        for n in LONGER_LENGTHS {
+            for v in 0..4 {
+                out.push(long(n, v));
+            }
         }
     }
     out
